@@ -161,7 +161,13 @@ def build(ctx, cfg):
         cond = cfg['cond']
         if cond == 'mixed':        # only the last process has a condition
             cond = 'fresh' if i == len(names) - 1 else 'none'
-        par = bool(cfg.get('parallel')) and ctx.flag('par')
+        fixed = cfg.get('par_fixed') or {}
+        if not cfg.get('parallel'):
+            par = False
+        elif str(i) in fixed:
+            par = fixed[str(i)]
+        else:
+            par = ctx.flag('par')
         run.procs[n] = P(run, n, cfg['mode'], cond, B, parallel=par)
         if par:
             ctx.goal('a process runs in a worker')
